@@ -57,7 +57,7 @@ type AV struct {
 	Fn      *ssa.Function
 	Bind    []AV
 	Tup     []AV
-	Tag     string // for kExtFn: label
+	Tag     string   // for kExtFn: label
 	Consts  []string // kSlice: the complete, constant contents of a string-kinded list (package-level tables)
 }
 
@@ -365,7 +365,7 @@ type Interp struct {
 	globals   map[*ssa.Global]AV                                // known initial values of package-level variables
 	profile   map[string]int
 	execEdge  map[[2]*ssa.BasicBlock]bool // CFG edges found executable (any activation)
-	execInstr map[ssa.Instruction]bool // instructions reached on executable paths
+	execInstr map[ssa.Instruction]bool    // instructions reached on executable paths
 }
 
 func newInterp(w *World) *Interp {
